@@ -63,6 +63,9 @@ func (w *WrapGen) path() string {
 	if w.r.Chance(1, 6) {
 		p = strings.ReplaceAll(p, "/", Pick(w.r, []string{"//", "/./"}))
 	}
+	if w.r.Chance(1, 10) && p != "" && !strings.HasSuffix(p, "/") {
+		p += "/" // trailing separator: the same file for every filepath.Clean-based filesystem
+	}
 	return p
 }
 
